@@ -95,7 +95,7 @@ P = {
         "assumptions": ["server ISN is drawn by the implementation from the seeded global math/rand (not steerable)", "sensor address is 127.0.0.1 (interface lo with a fixed hardware address)"],
     },
     "C02": {
-        "runs": {"quick": 3000, "thorough": 200000},
+        "runs": {"quick": 1600, "thorough": 200000},
         "budget_s": {"quick": 240, "thorough": 3300},
         "rule": "one scenario = a history of 1-60 link-layer frames (random bytes; Ethernet type; IPv4 IHL/version/total-length/fragment fields; TCP data offset 0-15 with 0-3 option bytes or longer random options, flag combinations, truncations; UDP length vs. actual; short ICMP; ARP; stray TCP segments; well-formed SYNs that make the listener transmit) or a SYN flood of up to 70,000 distinct 4-tuples with or without a 31 s gap (state-table reuse horizon), under one of four ARP/route configurations (peer known, via gateway, gateway without ARP entry, nothing), with clock advances and EINTR from epoll_wait, followed by a well-formed UDP probe; distinct = distinct trace digest; non-trivial = more than one frame",
         "components": comp(real=["listener/canary: New, Start() receive loop, ethernet/ipv4/tcp/udp/icmp/arp parsers, handleTCP/UDP/ICMP, state table, send (all real)"], simulated=["epoll + AF_PACKET syscalls, /proc/net/route, /proc/net/arp, interface table (simsys)"]),
